@@ -5,14 +5,24 @@ use crate::session::{Stats, Violation};
 use std::collections::BTreeSet;
 
 pub mod common;
+
+#[cfg(feature = "full")]
 pub mod c01;
+#[cfg(feature = "full")]
 pub mod c02;
-pub mod c05;
+#[cfg(feature = "full")]
 pub mod c04;
-pub mod c17;
-pub mod c12;
+#[cfg(feature = "full")]
+pub mod c05;
+#[cfg(feature = "full")]
 pub mod c06;
+#[cfg(feature = "full")]
 pub mod c11;
+#[cfg(feature = "full")]
+pub mod c12;
+#[cfg(feature = "full")]
+pub mod c17;
+pub mod c18;
 
 #[derive(Default)]
 pub struct RunResult {
@@ -26,68 +36,57 @@ pub struct RunResult {
     pub events: u64,
 }
 
-pub const CLAIMED: &[&str] = &["C01", "C02", "C05"];
+macro_rules! drivers {
+    ($( $id:literal => $m:ident ),* $(,)?) => {
+        #[cfg(feature = "full")]
+        pub fn generate(property: &str, run_seed: u64) -> Scenario {
+            match property {
+                $( $id => $m::generate(run_seed), )*
+                "C18" => c18::generate(run_seed),
+                other => panic!("no generator for property {other}"),
+            }
+        }
+        #[cfg(feature = "full")]
+        fn dispatch<S: crate::schemes::Scheme>(scn: &Scenario, log: &EventLog) -> RunResult {
+            match scn.property.as_str() {
+                $( $id => $m::run::<S>(scn, log), )*
+                "C18" => c18::run::<S>(scn, log),
+                other => RunResult { harness: Some(format!("no executor for property {other}")), ..Default::default() },
+            }
+        }
+    };
+}
+drivers! {
+    "C01" => c01, "C02" => c02, "C04" => c04, "C05" => c05, "C06" => c06,
+    "C11" => c11, "C12" => c12, "C17" => c17,
+}
 
+#[cfg(not(feature = "full"))]
 pub fn generate(property: &str, run_seed: u64) -> Scenario {
     match property {
-        "C01" => c01::generate(run_seed),
-        "C02" => c02::generate(run_seed),
-        "C05" => c05::generate(run_seed),
-        "C04" => c04::generate(run_seed),
-        "C17" => c17::generate(run_seed),
-        "C12" => c12::generate(run_seed),
-        "C06" => c06::generate(run_seed),
-        "C11" => c11::generate(run_seed),
-        other => panic!("no generator for property {other}"),
+        "C18" => c18::generate(run_seed),
+        other => panic!("this build variant only knows C18, not {other}"),
+    }
+}
+#[cfg(not(feature = "full"))]
+fn dispatch<S: crate::schemes::Scheme>(scn: &Scenario, log: &EventLog) -> RunResult {
+    match scn.property.as_str() {
+        "C18" => c18::run::<S>(scn, log),
+        other => RunResult { harness: Some(format!("this build variant only knows C18, not {other}")), ..Default::default() },
     }
 }
 
 pub fn execute(scn: &Scenario, keep_log: bool) -> (RunResult, Vec<String>) {
     let log = EventLog::new(keep_log);
-    let mut res = match scn.property.as_str() {
-        "C01" => crate::with_scheme!(scn.scheme.as_str(), c01_run(scn, &log)),
-        "C02" => crate::with_scheme!(scn.scheme.as_str(), c02_run(scn, &log)),
-        "C05" => crate::with_scheme!(scn.scheme.as_str(), c05_run(scn, &log)),
-        "C04" => crate::with_scheme!(scn.scheme.as_str(), c04_run(scn, &log)),
-        "C17" => crate::with_scheme!(scn.scheme.as_str(), c17_run(scn, &log)),
-        "C12" => crate::with_scheme!(scn.scheme.as_str(), c12_run(scn, &log)),
-        "C06" => crate::with_scheme!(scn.scheme.as_str(), c06_run(scn, &log)),
-        "C11" => crate::with_scheme!(scn.scheme.as_str(), c11_run(scn, &log)),
-        other => RunResult { harness: Some(format!("no executor for property {other}")), ..Default::default() },
-    };
+    let mut res = crate::with_scheme!(scn.scheme.as_str(), dispatch(scn, &log));
     res.log_digest = log.digest();
     res.events = log.count();
     (res, log.lines())
 }
 
-fn c01_run<S: crate::schemes::Scheme>(scn: &Scenario, log: &EventLog) -> RunResult {
-    c01::run::<S>(scn, log)
+pub fn c18_line(scn: &Scenario) -> String {
+    crate::with_scheme!(scn.scheme.as_str(), c18_line_g(scn))
 }
-
-fn c02_run<S: crate::schemes::Scheme>(scn: &Scenario, log: &EventLog) -> RunResult {
-    c02::run::<S>(scn, log)
-}
-
-fn c05_run<S: crate::schemes::Scheme>(scn: &Scenario, log: &EventLog) -> RunResult {
-    c05::run::<S>(scn, log)
-}
-
-fn c11_run<S: crate::schemes::Scheme>(scn: &Scenario, log: &EventLog) -> RunResult {
-    c11::run::<S>(scn, log)
-}
-
-fn c06_run<S: crate::schemes::Scheme>(scn: &Scenario, log: &EventLog) -> RunResult {
-    c06::run::<S>(scn, log)
-}
-
-fn c12_run<S: crate::schemes::Scheme>(scn: &Scenario, log: &EventLog) -> RunResult {
-    c12::run::<S>(scn, log)
-}
-
-fn c17_run<S: crate::schemes::Scheme>(scn: &Scenario, log: &EventLog) -> RunResult {
-    c17::run::<S>(scn, log)
-}
-
-fn c04_run<S: crate::schemes::Scheme>(scn: &Scenario, log: &EventLog) -> RunResult {
-    c04::run::<S>(scn, log)
+fn c18_line_g<S: crate::schemes::Scheme>(scn: &Scenario) -> String {
+    c18::line::<S>(scn)
 }
